@@ -80,8 +80,12 @@ static void verif_qsort(void *base, size_t n, size_t size, int (*cmp)(const void
 }
 static void *verif_bsearch(const void *key, const void *base, size_t n, size_t size, int (*cmp)(const void *, const void *))
 {
-	/* contract on a sorted array: SOME matching element (the first here), or NULL if there is none */
+	/* contract on a sorted array: SOME matching element (the first here), or NULL if there is none;
+	 * on an unsorted array bsearch(3) may miss elements: that is a violation of its precondition */
 	const char *b = base;
+	for (size_t i = 0; i + 1 < MAXL; i++)
+		if (i + 1 < n)
+			V_ASSERT(cmp(b + i * size, b + (i + 1) * size) <= 0, "C07: bsearch over entries that are not sorted by name (lookups of kept files may miss: reload, leak)");
 	for (size_t i = 0; i < MAXL; i++)
 		if (i < n && cmp(key, b + i * size) == 0) return (void *)(b + i * size);
 	return NULL;
